@@ -167,7 +167,76 @@ def oracle_cmif(S, nSv):
     n = S.shape[1]
     m = n if nSv == "all" else int(nSv)
     ref = max(S[0, 0, f] for f in range(S.shape[2]))
-    return [10.0 * np.log10(np.array([S[k, k, f] / ref for f in range(S.shape[2])])) for k in range(max(m, 0))]
+    with np.errstate(divide="ignore"):   # an exact zero singular value is at -inf dB
+        return [10.0 * np.log10(np.array([S[k, k, f] / ref for f in range(S.shape[2])])) for k in range(max(m, 0))]
+
+
+def curve_match(y, w):
+    """drawn dB levels y against the levels w the property states: as ratios 10**(y/10) (relative 1e-9) AND in dB (absolute 1e-6),
+    -inf exactly where the exact ratio is 0 - so a floor / clip far below the peak is seen"""
+    y, w = np.asarray(y, float), np.asarray(w, float)
+    if y.shape != w.shape or np.isnan(y).any():
+        return False
+    ninf = np.isneginf(w)
+    if not np.array_equal(np.isneginf(y), ninf):
+        return False
+    fin = ~ninf
+    if not np.all(np.isfinite(y[fin])):
+        return False
+    return bool(np.allclose(10 ** (y[fin] / 10), 10 ** (w[fin] / 10), rtol=1e-9, atol=0) and np.all(np.abs(y[fin] - w[fin]) <= 1e-6))
+
+
+# ----------------------------------------------------------------------------- caller-supplied axes / bystander figures
+def _open_figures():
+    from matplotlib import _pylab_helpers
+    return [m.canvas.figure for m in _pylab_helpers.Gcf.get_all_fig_managers()]
+
+
+def _n_artists(ax):
+    return (len(ax.lines) + len(ax.collections) + len(ax.patches) + len(ax.texts) + len(ax.images) + len(ax.containers)
+            + (1 if ax.get_legend() is not None else 0))
+
+
+def foreign_axes(mode):
+    """Axes handed to the plot function that are NOT pyplot's current axes.
+    'panel': left panel of a two-panel figure, the right panel is current; 'otherfig': axes of one figure while another figure is current;
+    'bystander': nothing is passed (fig=ax=None) but a two-panel figure is open and current.  -> (kwargs, passed axes or None)"""
+    if mode == "panel":
+        fig, (a, b) = plt.subplots(1, 2)
+        plt.sca(b)
+        return dict(fig=fig, ax=a), a
+    if mode == "otherfig":
+        fig, a = plt.subplots()
+        _fig2, (_b, c) = plt.subplots(2, 1)
+        plt.sca(c)
+        return dict(fig=fig, ax=a), a
+    if mode == "bystander":
+        _fig2, (_b, c) = plt.subplots(1, 2)
+        plt.sca(c)
+    return {}, None
+
+
+def census(target=None):
+    """artist count of every axes of every open figure except the target axes (references kept so ids stay unique)"""
+    return {id(ax): (ax, fig, _n_artists(ax)) for fig in _open_figures() for ax in fig.axes if ax is not target}
+
+
+def census_problem(before, target, ret_fig, ret_ax):
+    """nothing may be added to any axes / figure other than the one the diagram lives in"""
+    passed = target is not None
+    if passed and ret_ax is not target:
+        return "the returned axes are not the axes that were passed"
+    home = target if passed else ret_ax
+    for key, (ax, fig, cnt) in census(home).items():
+        if key not in before:
+            if passed or fig is not ret_fig:
+                return "a new axes / figure was created besides the diagram's own"
+            return "a second axes was added to the diagram's figure" if ax is not ret_ax else None
+        if cnt != before[key][2]:
+            return "%d artist(s) were added to an axes other than the diagram's (%s)" % (cnt - before[key][2],
+                                                                                    "passed axes were not pyplot's current axes" if passed else "another figure was open")
+    return None
+
 
 
 # ----------------------------------------------------------------------------- generators
@@ -443,13 +512,17 @@ def table_case(ctx, case, exprs, meta, big):
     res = {}
     # ---- stab_plot
     try:
-        kw = {}
-        if case.get("own_axes"):
-            fig0, ax0 = plt.subplots()
-            kw = dict(fig=fig0, ax=ax0)
+        amode = case.get("axes_mode") or ("panel" if case.get("own_axes") else "none")
+        ctx.hist("stab_axes_mode", amode)
+        kw, ax0 = foreign_axes(amode)
+        before = census(ax0)
         fig, ax = plot.stab_plot(Fn.copy(), Lab.copy(), step, ordmax, ordmin=int(case.get("ordmin", 0)), freqlim=freqlim,
                                  hide_poles=hide, Fn_cov=None if cov is None else cov.copy(), **kw)
-        arts, segs = read_axes(ax)
+        prob = census_problem(before, ax0, fig, ax)
+        if prob:
+            ctx.fail("oracle", "stab_plot (axes mode %s): %s - every marker must land in the diagram's own axes" % (amode, prob), case,
+                     key="C20:stab_plot:foreign-axes")
+        arts, segs = read_axes(ax0 if ax0 is not None else ax)   # the PASSED axes are the diagram
         st, un = split_families(arts, hide)
         res["stab"] = (fr_pts(st), fr_pts(un))
         if res["stab"][0] != fr_pts(stab_o):
@@ -468,7 +541,12 @@ def table_case(ctx, case, exprs, meta, big):
         plt.close("all")
     # ---- cluster_plot
     try:
+        _kw, _ = foreign_axes("bystander" if (case.get("axes_mode") or "none") != "none" else "none")
+        before = census(None)
         fig, ax = plot.cluster_plot(Fn.copy(), Xi.copy(), Lab.copy(), ordmin=int(case.get("ordmin", 0)), freqlim=freqlim, hide_poles=hide)
+        prob = census_problem(before, None, fig, ax)
+        if prob:
+            ctx.fail("oracle", "cluster_plot: %s" % prob, case, key="C20:cluster_plot:foreign-axes")
         arts, _ = read_axes(ax)
         st, un = split_families(arts, hide)
         res["cluster"] = (fr_pts(st), fr_pts(un))
@@ -579,13 +657,19 @@ def check_curves(ctx, curves, freq, want_db, case, site):
             if j in used:
                 continue
             x, y = curves[j]
-            if len(x) == len(freq) and np.array_equal(x, freq) and len(y) == len(w) and np.allclose(10 ** (y / 10), 10 ** (w / 10), rtol=1e-9, atol=0):
+            if len(x) == len(freq) and np.array_equal(x, freq) and curve_match(y, w):
                 hit = j
                 break
         if hit is None:
             x, y = curves[k]
-            why = ("not over the whole frequency grid" if not (len(x) == len(freq) and np.array_equal(x, freq))
-                   else "not 10 log10 (sigma_%d / max sigma_0): e.g. got %r want %r" % (k, float(y[0]), float(w[0])))
+            if not (len(x) == len(freq) and np.array_equal(x, freq)):
+                why = "not over the whole frequency grid"
+            else:
+                with np.errstate(invalid="ignore"):
+                    d = np.where(np.asarray(y) == np.asarray(w), 0.0, np.abs(np.asarray(y, float) - np.asarray(w, float))) if len(y) == len(w) else np.array([np.inf])
+                d = np.where(np.isnan(d), np.inf, d)
+                i = int(np.argmax(d))
+                why = "not 10 log10 (sigma_%d / max sigma_0): at line %d got %r dB, want %r dB" % (k, i, float(y[i]) if i < len(y) else None, float(w[i]))
             ctx.fail("oracle", "%s: curve of singular value %d is %s" % (site, k, why), case, key="C20:%s:curve" % site)
             return False
         used.add(hit)
@@ -601,11 +685,24 @@ def cmif_case(ctx, case, exprs, meta):
     admissible = nSv == "all" or int(nSv) < n
     ctx.count(case, nontrivial=admissible and (nSv == "all" or int(nSv) > 0))
     ctx.hist("cmif_nSv", "all" if nSv == "all" else ("inadmissible" if not admissible else "k<n"))
+    dg = np.array([S[k, k] for k in range(min(S.shape[0], n))])
+    with np.errstate(divide="ignore"):
+        lv = 10 * np.log10(dg / S[0, 0].max()) if S[0, 0].max() > 0 else np.zeros(1)
+    ctx.hist("cmif_exact_zero_singular_value", bool(np.isneginf(lv).any()))
+    ctx.hist("cmif_finite_level_below_-156.5dB", bool((np.isfinite(lv) & (lv < -156.6)).any()))
     ctx.sample(dict(kind="cmif", shape=list(S.shape), nSv=nSv, freqlim=freqlim), limit=5)
     res = None
     try:
-        fig, ax = plot.CMIF_plot(S.copy(), freq.copy(), freqlim=None if freqlim is None else tuple(freqlim), nSv=nSv)
-        res = read_curves(ax)
+        amode = case.get("axes_mode") or "none"
+        ctx.hist("cmif_axes_mode", amode)
+        kw, ax0 = foreign_axes(amode)
+        before = census(ax0)
+        fig, ax = plot.CMIF_plot(S.copy(), freq.copy(), freqlim=None if freqlim is None else tuple(freqlim), nSv=nSv, **kw)
+        prob = census_problem(before, ax0, fig, ax)
+        if prob:
+            ctx.fail("oracle", "CMIF_plot (axes mode %s): %s - every curve must land in the diagram's own axes" % (amode, prob), case,
+                     key="C20:CMIF_plot:foreign-axes")
+        res = read_curves(ax0 if ax0 is not None else ax)
     except ValueError:
         res = "ValueError"
     except Exception as e:  # noqa: BLE001
@@ -653,7 +750,9 @@ def compare_cmif(ctx, m, strs):
     bad = len(want) != len(res) or ncurves != len(res)
     for k in range(min(len(want), len(res))):
         x, y = res[k]
-        if not (np.array_equal(x, freq) and len(y) == len(want[k]) and np.allclose(10 ** (y / 10), want[k], rtol=1e-9, atol=0)):
+        with np.errstate(divide="ignore"):
+            wdb = 10.0 * np.log10(want[k])
+        if not (np.array_equal(x, freq) and curve_match(y, wdb)):
             bad = True
     if bad:
         ctx.fail("correspondence", "CMIF_plot curves differ from cmif_curves (model): %d vs %d curves or a ratio off by more than 1e-9" % (len(res), len(want)),
@@ -668,6 +767,12 @@ def class_case(ctx, case, exprs, meta, big):
     rng = np.random.default_rng(int(case["seed"]))
     fs = float(case.get("fs", 50.0))
     data = make_signal(rng, int(case.get("N", 1500)), fs, int(case.get("nch", 3)))
+    if case.get("demean"):
+        data = data - data.mean(axis=0)             # (nearly) zero spectral density at DC
+    if case.get("rankdef") == "dead":
+        data[:, -1] = 0.0                           # dead sensor: exactly rank-deficient spectral matrix, last singular value exactly 0 (-inf dB)
+    elif case.get("rankdef"):
+        data[:, -1] = data[:, -1] * 1e-20           # nearly dead sensor: last singular value 200 dB or more below the first one's maximum
     cls_name = case["cls"]
     p = dict(case.get("params", {}))
     cls = dict(SSIcov=SSIcov, SSIdat=SSIdat, pLSCF=pLSCF, FDD=FDD)[cls_name]
@@ -685,6 +790,10 @@ def class_case(ctx, case, exprs, meta, big):
     if cls_name == "FDD":
         S, freq = np.array(r.S_val, float), np.array(r.freq, float)
         n = S.shape[1]
+        with np.errstate(divide="ignore"):
+            lv = 10 * np.log10(np.array([S[k, k] for k in range(n)]) / S[0, 0].max())
+        ctx.hist("fdd_exact_zero_singular_value", bool(np.isneginf(lv).any()))
+        ctx.hist("fdd_finite_level_below_-156.5dB", bool((np.isfinite(lv) & (lv < -156.6)).any()))
         for nSv in case.get("nSv", ["all", 1, n - 1]):
             for freqlim in (None, (1.0, fs / 4)):
                 sub = dict(case, nSv=nSv, freqlim=freqlim)
@@ -824,7 +933,7 @@ def run(ctx):
         nst = max(1, int(((Lab == 1) & np.isfinite(Fn)).sum()))
         case = dict(type="tables", kind=kind, Fn=jl(Fn), Xi=jl(Xi), Lab=Lab.tolist(), lab_float=bool(rng.random() < 0.4),
                     step=int(rng.choice([1, 1, 1, 2, 3, 5])), hide=bool(rng.random() < 0.5), freqlim=gen_freqlim(rng),
-                    Fn_cov=None if cov is None else jl(cov), ordmin=int(rng.integers(0, 3)), own_axes=bool(rng.random() < 0.1),
+                    Fn_cov=None if cov is None else jl(cov), ordmin=int(rng.integers(0, 3)), axes_mode=str(rng.choice(["none", "none", "none", "bystander", "panel", "panel", "otherfig"])),
                     pick_idx=[int(v) for v in rng.integers(0, nst, size=2)], rtol=float(rng.choice([0.05, 0.01, 0.0])))
         table_case(ctx, case, exprs, meta, big)
     # ---- function level: CMIF
@@ -835,9 +944,24 @@ def run(ctx):
         for j in range(1, n):
             if rng.random() < 0.7:
                 S[j, j] = S[j, j] / 2 ** int(rng.integers(1, 5))  # usually below the first singular value, not always
+        if rng.random() < 0.45:   # wide INTERNAL dynamic range: ratios down to 1e-20..1e-30, exact zeros (rank-deficient matrix, zero at DC)
+            for j in range(1, n):
+                u = rng.random()
+                if u < 0.45:
+                    S[j, j] = S[j, j] * 2.0 ** -int(rng.integers(64, 101))
+                elif u < 0.6:
+                    S[j, j] = 0.0
+                if rng.random() < 0.5:
+                    S[j, j, int(rng.integers(nf))] = 0.0
+            line = int(rng.integers(nf))
+            if rng.random() < 0.5 and nf > 1:
+                keep = int(np.argmax(S[0, 0]))
+                line = line if line != keep else (keep + 1) % nf
+                S[0, 0, line] = 0.0 if rng.random() < 0.5 else S[0, 0, line] * 2.0 ** -90   # the first singular value itself dips (DC line)
         freq = np.cumsum(rng.integers(1, 9, size=nf)) / 16.0
-        nSv = "all" if rng.random() < 0.3 else int(rng.integers(-1, n + 2))
-        case = dict(type="cmif", S=S.tolist(), freq=freq.tolist(), nSv=nSv, freqlim=gen_freqlim(rng, 0.0, float(freq[-1])))
+        nSv = "all" if rng.random() < 0.4 else int(rng.integers(-1, n + 2))
+        case = dict(type="cmif", S=S.tolist(), freq=freq.tolist(), nSv=nSv, freqlim=gen_freqlim(rng, 0.0, float(freq[-1])),
+                    axes_mode=str(rng.choice(["none", "none", "bystander", "panel", "otherfig"])))
         cmif_case(ctx, case, exprs, meta)
     # ---- class level
     configs = []
@@ -853,6 +977,8 @@ def run(ctx):
                                                                        sc=dict(err_fn=0.05, err_xi=0.8, err_phi=0.3),     # loose criteria: enough stable poles
                                                                        hc=dict(conj=True, xi_max=0.2, mpc_lim=0.5, mpd_lim=0.5))),
             dict(type="class", cls="FDD", seed=seed, nch=nch, params=dict(nxseg=int(rng.choice([64, 128])))),
+            dict(type="class", cls="FDD", seed=seed, nch=max(nch, 3), rankdef=("dead" if d % 2 == 0 else "tiny"), demean=bool(d % 4 < 2), nSv=["all", 1],
+                 params=dict(nxseg=64, method_SD=str(rng.choice(["per", "cor"])))),
         ]
     for case in configs:
         class_case(ctx, case, exprs, meta, big)
